@@ -788,8 +788,11 @@ func (vm *VirtualMachine) pop() object.Object {
 }
 
 func (vm *VirtualMachine) push(obj object.Object) {
+	// Store first: when the stack is full the index panics and the stack
+	// pointer stays in range, so that the frames being unwound (resumeFrame)
+	// and later calls on this VM still find a usable stack.
+	vm.stack[vm.sp+1] = obj
 	vm.sp++
-	vm.stack[vm.sp] = obj
 }
 
 func (vm *VirtualMachine) swap(pos int) {
